@@ -13,7 +13,8 @@
 //!
 //! Operation text (one token per operation): `a<n>` allocate, `u` push frame,
 //! `p` pop frame, `o<ptr>,<off>` offset, `r<ptr>,<n>` read, `w<ptr>,<hex>`
-//! write, `c<to>,<from>,<n>` copy.
+//! write, `c<to>,<from>,<n>` copy, `g<ptr>` get (the raw address handed to
+//! clone / drop / eq and runtime functions: at least one byte must be there).
 
 use roto::verif_hooks::c20::{MemOp, MemOut, mem_run};
 use rotov_harness::driver::Driver;
@@ -30,6 +31,7 @@ pub fn show_ops(ops: &[MemOp]) -> String {
             MemOp::Read(p, n) => format!("r{p},{n}"),
             MemOp::Write(p, b) => format!("w{p},{}", hex(b)),
             MemOp::Copy(t, f, n) => format!("c{t},{f},{n}"),
+            MemOp::Get(p) => format!("g{p}"),
         })
         .collect::<Vec<_>>()
         .join(" ")
@@ -60,6 +62,7 @@ pub fn parse_ops(s: &str) -> Vec<MemOp> {
                     let n = nums(rest);
                     MemOp::Copy(n[0], n[1], n[2])
                 }
+                "g" => MemOp::Get(rest.parse().expect("ptr")),
                 _ => panic!("bad op {t}"),
             }
         })
@@ -206,6 +209,17 @@ impl Shadow {
                 self.frames[ptr.depth].allocs[ptr.alloc][ptr.off..ptr.off + b.len()].copy_from_slice(b);
                 None
             }
+            MemOp::Get(p) => {
+                if !completed {
+                    return None;
+                }
+                // the address of a byte: that byte has to exist in a live allocation
+                if let Some(d) = defect(self, *p, 1) {
+                    let class = d.split(':').next().unwrap_or("").to_string();
+                    return Some((format!("mem get {class}"), format!("a raw address was handed out although the access is {d}")));
+                }
+                None
+            }
             MemOp::Copy(t, f, n) => {
                 if !completed {
                     return None;
@@ -249,6 +263,9 @@ fn table_for_size(size: usize) -> Vec<MemOp> {
             ops.push(MemOp::Read(at(k), w));
         }
     }
+    for k in 0..=size + 9 {
+        ops.push(MemOp::Get(at(k)));
+    }
     // whole-allocation and longer reads from the base pointer
     for n in [size, size + 1, size + 7, size.next_multiple_of(8), size.next_multiple_of(8) + 1, 0] {
         ops.push(MemOp::Read(0, n));
@@ -281,6 +298,9 @@ fn frame_tables() -> Vec<Vec<MemOp>> {
     vec![
         // read/write after pop
         vec![PushFrame, Allocate(8), Write(0, w8()), Read(0, 8), PopFrame, Read(0, 8), Write(0, w8()), Read(0, 1)],
+        // raw addresses of dangling pointers: frame gone, and frame re-pushed at the same depth
+        vec![PushFrame, Allocate(8), Get(0), PopFrame, Get(0), PushFrame, Allocate(8), Get(1), Get(0)],
+        vec![Allocate(4), PushFrame, Allocate(8), OffsetBy(1, 4), PushFrame, Allocate(8), PopFrame, PopFrame, Get(0), Get(1), Get(2), Get(3), PushFrame, Get(1), Allocate(2), Get(1), Get(2), Get(3)],
         // re-pushed frame at the same depth, same allocation index
         vec![PushFrame, Allocate(8), Write(0, w8()), PopFrame, PushFrame, Allocate(8), Read(1, 8), Read(0, 8), Write(0, w8()), Copy(1, 0, 8), Copy(0, 1, 8), Read(1, 8)],
         // offsets of a dangling pointer
@@ -320,6 +340,7 @@ fn random_seq(p: &mut Prng) -> Vec<MemOp> {
                 let w = *p.pick(&[1usize, 2, 4, 8, 8, 4]);
                 ops.push(MemOp::Write(any(p, nptr), (0..w).map(|_| p.next() as u8).collect()));
             }
+            9 if nptr > 0 => ops.push(MemOp::Get(any(p, nptr))),
             8 if nptr > 0 => {
                 let n = *p.pick(&[1usize, 2, 4, 8, 12, 16, 3, 24]);
                 ops.push(MemOp::Copy(any(p, nptr), any(p, nptr), n));
@@ -340,6 +361,7 @@ fn classify(sh: &Shadow, op: &MemOp, real: &MemOut) -> Option<String> {
         MemOp::Read(p, n) => ("read", *p, *n),
         MemOp::Write(p, b) => ("write", *p, b.len()),
         MemOp::Copy(_, f, n) => ("copy", *f, *n),
+        MemOp::Get(p) => ("get", *p, 1),
         _ => return None,
     };
     let outcome = if matches!(real, MemOut::Panic(_)) { "stop" } else { "ok" };
@@ -380,7 +402,7 @@ fn minimise(ops: &[MemOp], real: &[MemOut], at: usize, key: &str) -> Option<Vec<
     }
     let uses = |o: &MemOp| -> Vec<usize> {
         match o {
-            MemOp::OffsetBy(p, _) | MemOp::Read(p, _) | MemOp::Write(p, _) => vec![*p],
+            MemOp::OffsetBy(p, _) | MemOp::Read(p, _) | MemOp::Write(p, _) | MemOp::Get(p) => vec![*p],
             MemOp::Copy(t, f, _) => vec![*t, *f],
             _ => vec![],
         }
@@ -409,6 +431,7 @@ fn minimise(ops: &[MemOp], real: &[MemOut], at: usize, key: &str) -> Option<Vec<
             MemOp::Read(p, n) => MemOp::Read(renum(*p), *n),
             MemOp::Write(p, b) => MemOp::Write(renum(*p), b.clone()),
             MemOp::Copy(t, f, n) => MemOp::Copy(renum(*t), renum(*f), *n),
+            MemOp::Get(p) => MemOp::Get(renum(*p)),
             other => other.clone(),
         });
     }
